@@ -9,6 +9,8 @@ namespace Idsp
 def PLL.inRange (s : PLL) : Prop :=
   inI 32 s.x = true ∧ inI 32 s.y0 = true ∧ inI 32 s.f0 = true ∧ inI 64 s.f = true ∧ inI 64 s.y = true
 
+instance (s : PLL) : Decidable s.inRange := by unfold PLL.inRange; infer_instance
+
 /-- frequency residue `g = f − F·2^32 (mod 2^64)` w.r.t. the input increment `F` -/
 def PLL.g (F : Int) (s : PLL) : Int := wrapI 64 (s.f - F * 2 ^ 32)
 /-- phase residue `h = y − x·2^32 (mod 2^64)` -/
